@@ -195,7 +195,7 @@ func c06History(r *ev.Run, id string, rng *rand.Rand, nOps int) {
 			var pnc any
 			func() {
 				defer func() { pnc = recover() }()
-				server.VerifUpdateTXTimestamp(c, h.rxOut, &arg)
+				server.VerifUpdateTXTimestamp(c, h.rxOut, h.txOut, &arg)
 			}()
 			ops = append(ops, op)
 			r.Eval(1)
@@ -225,16 +225,34 @@ func c06History(r *ev.Run, id string, rng *rand.Rand, nOps int) {
 			sh := shadow[c][rx64]
 			own := had != nil && sh != nil
 			if o, ok := owner[c][rx64]; had != nil && (!ok || o != hi) {
-				// the record under this receive timestamp was re-created by a later exchange: the
-				// update cannot be attributed, the statement says nothing about it
-				r.Class("update:record-belongs-to-a-later-exchange")
-				if sh != nil {
-					sh.unknown = true
+				// the record under this receive timestamp was re-created by a later exchange; the exchange
+				// this update belongs to is no longer on record, and what is recorded for the later one
+				// (its own transmit time) must not change
+				if had.TX == ntp.Time64FromTime(h.txOut) {
+					// both exchanges carry the same receive and software transmit time: indistinguishable
+					r.Class("update:record-belongs-to-a-later-exchange(indistinguishable)")
+					if sh != nil {
+						sh.unknown = true
+					}
+					if has == nil {
+						delete(shadow[c], rx64)
+						delete(owner[c], rx64)
+					}
+					continue
 				}
-				if has == nil {
-					delete(shadow[c], rx64)
-					delete(owner[c], rx64)
+				if has == nil || *has != *had {
+					fail("state:update of an exchange no longer on record changed the record of a later exchange with the same receive timestamp", "update-"+op.TX,
+						map[string]any{"rx": t64u(rx64), "record_before": had, "record_after": has})
+					if sh != nil {
+						sh.unknown = true
+					}
+					if has == nil {
+						delete(shadow[c], rx64)
+						delete(owner[c], rx64)
+					}
+					continue
 				}
+				r.Class("update:stale(record belongs to a later exchange)->ignored")
 				continue
 			}
 			if sh != nil && sh.unknown {
